@@ -7,6 +7,7 @@ package main
 import (
 	"context"
 	"fmt"
+	"io"
 	"net/http"
 	"os"
 	"strings"
@@ -24,7 +25,9 @@ import (
 type Kill struct {
 	At     int    `json:"at"`     // index among the Worker.* RPCs of the scenario (run + scan)
 	After  bool   `json:"after"`  // kill after the call returned instead of before forwarding it
-	Target string `json:"target"` // callee | other
+	Target string `json:"target"` // callee | other | midread (callee killed after Bytes bytes of the response body were delivered)
+	Hold   int    `json:"hold"`   // with After: milliseconds the reply is held back after the kill (the driver notices the loss first)
+	Bytes  int    `json:"bytes"`  // midread: bytes of the body delivered before the kill
 }
 
 type Desc struct {
@@ -40,7 +43,9 @@ type interposer struct {
 	inner  http.RoundTripper
 	sys    *testsystem.System
 	n      int      // Worker.* calls seen
-	trace  []string // method names
+	trace  []string // method names; a partition read issued while a Worker.Run is in flight is "Worker.Read/shuffle"
+	runs   int      // Worker.Run calls in flight
+	nshuf  int      // shuffle reads seen (midread kills are indexed over these)
 	kills  []Kill
 	killed []string // what was killed, for the record
 	armed  bool
@@ -89,28 +94,78 @@ func (ip *interposer) RoundTrip(req *http.Request) (*http.Response, error) {
 		ip.mu.Lock()
 		idx := ip.n
 		ip.n++
-		ip.trace = append(ip.trace, m)
+		if m == "Worker.Read" && ip.runs > 0 {
+			ip.trace = append(ip.trace, "Worker.Read/shuffle")
+		} else {
+			ip.trace = append(ip.trace, m)
+		}
+		if m == "Worker.Run" {
+			ip.runs++
+			defer func() { ip.mu.Lock(); ip.runs--; ip.mu.Unlock() }()
+		}
+		isShuffle := m == "Worker.Read" && ip.runs > 0
 		if ip.armed {
 			for i := range ip.kills {
-				if ip.kills[i].At == idx {
+				if ip.kills[i].Target == "midread" {
+					if isShuffle && ip.kills[i].At == ip.nshuf {
+						k = &ip.kills[i]
+					}
+				} else if ip.kills[i].At == idx {
 					k = &ip.kills[i]
 				}
 			}
 		}
+		if isShuffle {
+			ip.nshuf++
+		}
 		if k != nil {
 			victim = ip.pick(req.URL.Host, k.Target == "other")
+
 		}
 		ip.mu.Unlock()
 	}
-	if k != nil && !k.After {
+	if k != nil && !k.After && k.Target != "midread" {
 		ip.kill(victim)
 	}
 	resp, err := ip.inner.RoundTrip(req)
+	if k != nil && k.Target == "midread" && err == nil && resp != nil {
+		resp.Body = &killBody{inner: resp.Body, left: k.Bytes, kill: func() { ip.kill(victim) }}
+		return resp, err
+	}
 	if k != nil && k.After {
 		ip.kill(victim)
+		if k.Hold > 0 {
+			time.Sleep(time.Duration(k.Hold) * time.Millisecond)
+		}
 	}
 	return resp, err
 }
+
+// killBody delivers the first `left` bytes of a response body, then kills the
+// serving machine: the rest of the stream is lost in the middle of the read.
+type killBody struct {
+	inner io.ReadCloser
+	left  int
+	kill  func()
+	done  bool
+}
+
+func (b *killBody) Read(p []byte) (int, error) {
+	if !b.done && b.left <= 0 {
+		b.done = true
+		b.kill()
+	}
+	if b.done {
+		return 0, io.ErrUnexpectedEOF // a dead machine delivers nothing more
+	}
+	if len(p) > b.left {
+		p = p[:b.left]
+	}
+	n, err := b.inner.Read(p)
+	b.left -= n
+	return n, err
+}
+func (b *killBody) Close() error { return b.inner.Close() }
 
 // ksys is the test system with every RPC going through the interposer.
 type ksys struct {
@@ -155,8 +210,16 @@ func scenario(d Desc) (first, again prog.Obs, trace []string, killed []string) {
 		case <-time.After(2 * time.Second):
 		}
 	}()
+	// warm-up: bring several machines up first, so that the tasks of the program
+	// under test spread over them and shuffle reads cross machine boundaries
+	warm := prog.Prog{Nodes: []prog.Node{{Op: "const", N: 4, Types: []string{"i"}, Cols: [][]int64{{1, 2, 3, 4, 5, 6, 7, 8}}}, {Op: "reshuffle", In: []int{0}}}}
+	prog.RunOnce(s, warm, "", 30*time.Second)
+	for i := 0; i < 40 && s.Sys.N() < 2; i++ {
+		time.Sleep(50 * time.Millisecond)
+	}
 	ip.mu.Lock()
 	ip.armed = true
+	ip.n, ip.trace, ip.nshuf = 0, nil, 0
 	ip.mu.Unlock()
 	t0 := time.Now()
 	first, _ = prog.RunOnce(s, d.Prog, "", 90*time.Second)
@@ -165,7 +228,7 @@ func scenario(d Desc) (first, again prog.Obs, trace []string, killed []string) {
 	}
 	ip.mu.Lock()
 	ip.armed = false
-	trace = append([]string{}, ip.trace...)
+	trace = append([]string{}, ip.trace...) // the calls of the first run and its scan only
 	killed = append([]string{}, ip.killed...)
 	ip.mu.Unlock()
 	if first.Err == "hang" {
@@ -226,17 +289,56 @@ func main() {
 			procs := 1 + i%2
 			// failure-free run: how many Worker.* calls does run+scan make?
 			_, _, trace, _ := scenario(Desc{Prog: p, Procs: procs})
-			n := len(trace) / 2 // the scenario runs the program twice
+			n := len(trace)
 			if n == 0 {
 				continue
 			}
 			for j := 0; j < per; j++ {
 				k := Kill{At: r.Intn(n), After: r.Bool(), Target: []string{"callee", "callee", "other"}[r.Intn(3)]}
+				if k.After && r.Chance(1, 2) {
+					k.Hold = 1500 // the machine dies after answering; the driver learns of the loss before it sees the answer
+				}
 				d := Desc{Prog: p, Procs: procs, Kills: []Kill{k}}
 				if r.Chance(1, 5) {
 					d.Kills = append(d.Kills, Kill{At: r.Intn(n), After: r.Bool(), Target: "callee"})
 				}
 				descs = append(descs, d)
+			}
+		}
+	}
+	if opts.Replay == "" {
+		// large shuffles: kill the serving machine in the middle of a partition read
+		root := vf.NewRand(opts.Seed + 77)
+		nbig := 1
+		if opts.Tier == "thorough" {
+			nbig = 10
+		}
+		for i := 0; i < nbig*opts.Scale; i++ {
+			_ = root.Split()
+			rows := 6000
+			cols := [][]int64{make([]int64, rows), make([]int64, rows)}
+			for j := 0; j < rows; j++ {
+				// shard 0 holds the small keys, shard 1 the large ones: in every reducer the
+				// stream from shard 1 is the last one left in the merge
+				cols[0][j] = int64(j)
+				cols[1][j] = int64(j % 7)
+			}
+			p := prog.Prog{Nodes: []prog.Node{{Op: "const", N: 2, Types: []string{"i", "i"}, Cols: cols}, {Op: "reduce", In: []int{0}, Comb: "sum"}}}
+			_, _, trace, _ := scenario(Desc{Prog: p, Procs: 1})
+			// partition reads issued while a task is running are shuffle reads
+			var reads []int
+			for idx, m := range trace {
+				if m == "Worker.Read/shuffle" {
+					reads = append(reads, idx)
+				}
+			}
+			if os.Getenv("VERIF_DEBUG") != "" {
+				fmt.Fprintf(os.Stderr, "BIG trace=%v reads=%v N=%d\n", trace, reads, 0)
+			}
+			for j := 0; j < len(reads) && j < 4; j++ {
+				for _, b := range []int{2000, 4000} {
+					descs = append(descs, Desc{Prog: p, Procs: 1, Kills: []Kill{{At: j, Target: "midread", Bytes: b}}})
+				}
 			}
 		}
 	}
